@@ -293,6 +293,40 @@ def check_deps_cover(ctx, R="C06.deps"):
             ctx.finding(R, calls[0], "transformPropertyDef dependency set", "the compiler filters or drops the dependency set computed by AttributeFinder for a property default")
     else:
         ctx.finding(R, fn, "transformPropertyDef AttributeFinder", "transformPropertyDef no longer computes dependencies with AttributeFinder.find('self', value)")
+    # the finder itself is complete: on every path on which visit_Attribute does not record `target.attr`, it descends into the
+    # value of the attribute, whatever kind of expression that is (`f(self.width).x`, `self.shape[0].y`, `(self.a + self.b).z`)
+    af = model.cls("scenic.syntax.compiler", "AttributeFinder")
+    va = af.methods.get("visit_Attribute")
+    if va is None:
+        ctx.ok(R, af.node, "AttributeFinder has no visit_Attribute: generic traversal reaches every sub-expression")
+    else:
+        npar = va.args.args[1].arg
+        descents = []
+        for c in walk_local(va):
+            if not (isinstance(c, ast.Call) and isinstance(c.func, ast.Attribute) and isinstance(c.func.value, ast.Name) and c.func.value.id == "self"):
+                continue
+            if c.func.attr in ("visit", "generic_visit", "visit_Attribute") and len(c.args) == 1:
+                a_ = lib.role_text(va, c.args[0])
+                if a_ in (lib.role_text(None, f"{npar}.value"), npar):
+                    descents.append(c)
+        narrowed = []
+        free = []
+        for c in descents:
+            pos = [t for t, pol in lib.guard_tests(c, va) if pol and any(isinstance(x, ast.Call) and dotted(x.func) == "isinstance" for x in ast.walk(t))]
+            (narrowed if pos else free).append((c, pos))
+        if free:
+            ctx.ok(R, free[0][0], "AttributeFinder.visit_Attribute descends into the value of every attribute access it does not record")
+        else:
+            where = narrowed[0][0] if narrowed else va
+            ctx.finding(
+                R,
+                where,
+                "AttributeFinder.visit_Attribute does not descend into every value",
+                "AttributeFinder.visit_Attribute visits the value of an attribute access "
+                + (f"only under `{norm_text(narrowed[0][1][0], 60)}`" if narrowed else "on no path")
+                + ": for `f(self.width).x`, `self.shape[0].y` or `(self.a + self.b).z` the reads of `self.<prop>` inside the value are not recorded, so the default is "
+                "evaluated before those properties are final (or fails with an attribute error on the lazily evaluated object)",
+            )
 
 
 def check_errors(ctx, R="C06.errors"):
